@@ -206,3 +206,171 @@ def show(s):
     if k == "arr":
         return "[%s; %d]" % (show(s[2]), s[1])
     return "%s{%s}" % (s[1], ", ".join(show(f) for f in s[2]))
+
+
+# ---- client values -----------------------------------------------------------------------------------------------
+# ("k", id) single account | ("ok", None | id) Program/Sysvar (Option<Pubkey>) | ("o", None | v) | ("l", [v]) | ("s", [v])
+def gen_value(rng, s, lens, pos, mode):
+    """pos = [index of the next static Vec node]; mode: 'wf' | 'wild' (program-id keys, wrong lengths, overrides)"""
+    k = s[0]
+    if k == "leaf":
+        if mode == "wild" and rng.chance(1, 6):
+            return ("k", PROG)
+        kid = rng.range(1, 200)
+        return ("k", kid if kid != PROG else 201)
+    if k in ("prog", "sysv"):
+        if mode == "wild" and rng.chance(1, 5):
+            return ("ok", rng.choice([s[1], 5, PROG]))
+        return ("ok", None if rng.chance(3, 4) else s[1])
+    if k == "opt":
+        if rng.chance(2, 5):
+            # keep the static Vec numbering in step
+            pos[0] += nvec(s[1])
+            return ("o", None)
+        return ("o", gen_value(rng, s[1], lens, pos, mode))
+    if k == "box":
+        return gen_value(rng, s[1], lens, pos, mode)
+    if k == "vec":
+        n = lens[pos[0]]
+        pos[0] += 1
+        if mode == "wild" and rng.chance(1, 4):
+            n = max(0, n + rng.choice([-1, 1]))
+        p0 = pos[0]
+        items = []
+        for _ in range(n):
+            pos[0] = p0
+            items.append(gen_value(rng, s[1], lens, pos, mode))
+        pos[0] = p0 + nvec(s[1])
+        return ("l", items)
+    if k == "rest":
+        n = rng.range(0, 3)
+        p0 = pos[0]
+        items = []
+        for _ in range(n):
+            pos[0] = p0
+            items.append(gen_value(rng, s[1], lens, pos, mode))
+        pos[0] = p0 + nvec(s[1])
+        return ("l", items)
+    if k == "arr":
+        p0 = pos[0]
+        items = []
+        for _ in range(s[1]):
+            pos[0] = p0
+            items.append(gen_value(rng, s[2], lens, pos, mode))
+        pos[0] = p0 + nvec(s[2])
+        return ("l", items)
+    return ("s", [gen_value(rng, f, lens, pos, mode) for f in s[2]])
+
+
+def enc_val(s, v):
+    k = s[0]
+    if k == "leaf":
+        return [v[1]]
+    if k in ("prog", "sysv"):
+        return [0] if v[1] is None else [1, v[1]]
+    if k == "opt":
+        return [0] if v[1] is None else [1] + enc_val(s[1], v[1])
+    if k == "box":
+        return enc_val(s[1], v)
+    if k in ("vec", "rest"):
+        out = [len(v[1])]
+        for x in v[1]:
+            out += enc_val(s[1], x)
+        return out
+    if k == "arr":
+        out = []
+        for x in v[1]:
+            out += enc_val(s[2], x)
+        return out
+    out = []
+    for f, x in zip(s[2], v[1]):
+        out += enc_val(f, x)
+    return out
+
+
+def dec_val(s, c, i):
+    k = s[0]
+    if k == "leaf":
+        return ("k", c[i]), i + 1
+    if k in ("prog", "sysv"):
+        if c[i] == 0:
+            return ("ok", None), i + 1
+        return ("ok", c[i + 1]), i + 2
+    if k == "opt":
+        if c[i] == 0:
+            return ("o", None), i + 1
+        v, i = dec_val(s[1], c, i + 1)
+        return ("o", v), i
+    if k == "box":
+        return dec_val(s[1], c, i)
+    if k in ("vec", "rest"):
+        n = c[i]
+        i += 1
+        items = []
+        for _ in range(n):
+            v, i = dec_val(s[1], c, i)
+            items.append(v)
+        return ("l", items), i
+    if k == "arr":
+        items = []
+        for _ in range(s[1]):
+            v, i = dec_val(s[2], c, i)
+            items.append(v)
+        return ("l", items), i
+    items = []
+    for f in s[2]:
+        v, i = dec_val(f, c, i)
+        items.append(v)
+    return ("s", items), i
+
+
+# ---- extra (run) arguments: sidx % 6 -> (), u64, String, Vec<u16>, Option<i32>, Inner{a:u8,b:[u8;4],c:bool} --------
+def gen_extra(rng, kind):
+    if kind == 0:
+        return []
+    if kind == 1:
+        return [rng.choice([0, 1, (1 << 64) - 1, rng.next()])]
+    if kind == 2:
+        n = rng.range(0, 12)
+        return [n] + [rng.range(32, 126) for _ in range(n)]
+    if kind == 3:
+        n = rng.range(0, 5)
+        return [n] + [rng.range(0, 65535) for _ in range(n)]
+    if kind == 4:
+        return [0] if rng.chance(1, 3) else [1, rng.range(-(1 << 31), (1 << 31) - 1)]
+    return [rng.range(0, 255)] + rng.bytes(4) + [rng.below(2)]
+
+
+def borsh_extra(kind, e):
+    if kind == 0:
+        return []
+    if kind == 1:
+        return list(int(e[0]).to_bytes(8, "little"))
+    if kind == 2:
+        return list(int(e[0]).to_bytes(4, "little")) + list(e[1:])
+    if kind == 3:
+        out = list(int(e[0]).to_bytes(4, "little"))
+        for x in e[1:]:
+            out += list(int(x).to_bytes(2, "little"))
+        return out
+    if kind == 4:
+        return [0] if e[0] == 0 else [1] + list(int(e[1]).to_bytes(4, "little", signed=True))
+    return list(e)
+
+
+def make_case(sidx, lens, val, extra):
+    s = top(sidx)
+    sh = enc_shape(s)
+    return [sidx, len(sh)] + sh + [len(lens)] + list(lens) + enc_val(s, val) + list(extra)
+
+
+def decode_case(c):
+    sidx = c[0]
+    n = c[1]
+    i = 2 + n
+    k = c[i]
+    lens = c[i + 1:i + 1 + k]
+    i += 1 + k
+    s = top(sidx)
+    val, i = dec_val(s, c, i)
+    return {"sidx": sidx, "shape": s, "lens": lens, "val": val, "extra": c[i:]}
